@@ -289,7 +289,7 @@ SHARED = [('s1', 'ConnectionPoint'), ('s2', 'Link'), ('s3', 'ConnectionPoint'), 
 SH_EDGES = [('s1', 's2', 'connects'), ('s2', 's3', 'connects'), ('s3', 's4', 'connects'), ('s4', 's5', 'has'),
             ('s1', 's4', 'connects')]
 PCLS = ['NetworkNode', 'Component', 'NetworkService', 'ConnectionPoint', 'Link']
-DELNAMES = ['del1', 'del2', 'del3']
+DELNAMES = ['del1', 'del2', 'del3', 'd\u00e9l "4"', 'del\\5', 'del']
 MODES = ['consistent'] * 7 + ['nonadj', 'nonadj', 'props', 'edges', 'speakers', 'malformed', 'subset']
 
 
@@ -457,6 +457,51 @@ def gen_history(rng, nadm, maxlen=12):
                 merged = set()
             used.add(j)
     return h
+
+
+# ids the API accepts but that are awkward as text: non-ASCII characters, quotes, backslashes (json.dumps escapes all
+# three inside the stored JSON properties), blanks, and ids that are substrings of one another
+EXOTIC_GIDS = [lambda k: 'adm-net-Z\u00fcrich-%d' % k, lambda k: 'adm "site" RENC %d' % k, lambda k: 'adm-site\\RENC\\%d' % k,
+               lambda k: 'adm-\u6771\u4eac-%d' % k, lambda k: 'adm' + '-1' * k, lambda k: "adm's {%d}" % k]
+EXOTIC_NODES = [lambda x: x + '-\u00e9', lambda x: 'node "' + x + '"', lambda x: x + '\\port', lambda x: '\u30ce\u30fc\u30c9' + x,
+                lambda x: x, lambda x: x + ':1']
+
+
+def exoticize(case, rng, nodes=True, p=0.4):
+    """rename graph ids (and, for the synthetic families, node ids) of a finished case, consistently in the sources, the
+    histories (unmerge names a graph id) and the self-keyed delegations"""
+    if rng.random() >= p:
+        return case
+    ren = {}
+    for k, a in enumerate(case['adms']):
+        f = rng.choice(EXOTIC_GIDS) if rng.random() < 0.8 else (lambda kk, g=a['gid']: g)
+        new = f(k + 1)
+        if new in ren.values() or new == CBM_ID:
+            new = a['gid']
+        ren[a['gid']] = new
+    if len(set(ren.values())) != len(ren):
+        return case
+    nren = {}
+    if nodes and rng.random() < 0.6:
+        f = rng.choice(EXOTIC_NODES)
+        for a in case['adms']:
+            for n in a['nodes']:
+                nren.setdefault(n[0], f(n[0]) if rng.random() < 0.7 else n[0])
+        if len(set(nren.values())) != len(nren):
+            nren = {}
+    for a in case['adms']:
+        old = a['gid']
+        a['gid'] = ren[old]
+        for n in a['nodes']:
+            n[0] = nren.get(n[0], n[0])
+            for f_ in (4, 5):
+                if isinstance(n[f_], list):
+                    n[f_] = [[ren.get(d, d), c] for d, c in n[f_]]
+        for e in a['edges']:
+            e[0], e[1] = nren.get(e[0], e[0]), nren.get(e[1], e[1])
+    case['hists'] = [[[op[0], ren.get(op[1], op[1])] if op[0] == 'unmerge' else op for op in h] for h in case['hists']]
+    case['exotic_ids'] = True
+    return case
 
 
 def perm_histories(nadm):
@@ -715,7 +760,8 @@ F4 = 'F4-order-dependent: '
 F5 = 'F5-refused-merge-residue: '
 F6 = 'F6-remerge-not-refused: '
 F7 = 'F7-rollback-unknown-destroys: '
-KNOWN_TAGS = (F2, F4, F5, F6, F7)       # the two known findings; (F1 contraction attribute, F3 raise after an all-common merge: fixed)
+KNOWN_TAGS = (F2, F4, F5, F6)           # the open findings (fixed meanwhile: F1 contraction attribute 7e2b502, F3 raise after an
+                                        # all-common merge 66c63a6, F7 rollback to an unknown snapshot da9eec1 - these are plain violations now)
 
 
 def edge_residue(got, exp, src0, M2):
@@ -886,7 +932,7 @@ class Histories(Stream):
             if k >= 2 and (i % 3 == 0 or i < 12):
                 hs += snapshot_histories(k, rng)
             fam['hists'] = hs
-            out.append(fam)
+            out.append(exoticize(fam, rng))
         return out
 
     def corpus(self):
@@ -956,6 +1002,7 @@ class Histories(Stream):
             h['mode_' + c.get('mode', 'corpus')] += 1
             h['families_delegation_id_is_graph_id'] += bool(c.get('selfid'))
             h['families_pre_rewritten'] += bool(c.get('prerewrite'))
+            h['families_exotic_ids'] += bool(c.get('exotic_ids'))
             h['adms_%d' % len(c['adms'])] += 1
             h['histories'] += len(c['hists'])
             for hist, (_, steps) in zip(c['hists'], o['runs']):
@@ -1162,6 +1209,19 @@ CORPUS = [
         {'gid': 'adm-2', 'nodes': [N('s1', 'ConnectionPoint'), N('p2-1', 'NetworkNode', cd=[['adm-2', 'c1']], ld=[['del1', 'l2']])],
          'edges': [['s1', 'p2-1', 'has', []]]}],
      'hists': [[['merge', 0], ['merge', 1]], [['merge', 1], ['merge', 0], ['unmerge', 'adm-1'], ['merge', 0]]]},
+    # graph / node / delegation ids with non-ASCII characters, quotes, backslashes, and ids that contain one another
+    {'mode': 'corpus-exotic-ids', 'exotic_ids': True, 'adms': [
+        {'gid': 'adm-net-Z\u00fcrich', 'nodes': [N('s1 "\u00e9"', 'ConnectionPoint', cd=[['d\u00e9l "4"', 'c1']]), N('s1', 'Link'),
+                                            N('p\\1', 'NetworkNode')],
+         'edges': [['s1 "\u00e9"', 's1', 'connects', []], ['p\\1', 's1', 'has', []]]},
+        {'gid': 'adm "site" RENC', 'nodes': [N('s1 "\u00e9"', 'ConnectionPoint'), N('s1', 'Link'), N('\u30ce\u30fc\u30c92', 'NetworkNode', ld=[['del', 'l2']])],
+         'edges': [['s1 "\u00e9"', 's1', 'connects', []], ['\u30ce\u30fc\u30c92', 's1 "\u00e9"', 'has', []]]},
+        {'gid': 'adm', 'nodes': [N('s1', 'Link'), N('p3', 'NetworkNode', cd=[['adm', 'c2']])], 'edges': [['p3', 's1', 'has', []]]},
+        {'gid': 'adm-site\\RENC', 'nodes': [N('s1', 'Link'), N('p4', 'NetworkNode')], 'edges': [['p4', 's1', 'has', []]]}],
+     'hists': [[['merge', 0], ['merge', 1], ['unmerge', 'adm "site" RENC'], ['unmerge', 'adm-net-Z\u00fcrich']],
+               [['merge', 1], ['merge', 2], ['merge', 3], ['merge', 0], ['unmerge', 'adm'], ['unmerge', 'adm-site\\RENC'],
+                ['unmerge', 'adm-net-Z\u00fcrich'], ['merge', 2]],
+               [['merge', 3], ['snap'], ['merge', 0], ['unmerge', 'adm-site\\RENC'], ['rollback', 0], ['unmerge', 'adm-site\\RENC']]]},
     # sources re-keyed by the public rewrite_delegations() before they are merged
     {'mode': 'corpus-prerewrite', 'prerewrite': [0, 1], 'adms': [
         {'gid': 'adm-1', 'nodes': [N('s1', 'ConnectionPoint', ld=[['del1', 'l1']]), N('p1-1', 'NetworkNode', cd=[['del2', 'c2']])],
@@ -1191,11 +1251,13 @@ class RealModels(Histories):
             hs = [perms[0], perms[-1]] + rng.sample(perms[1:-1], 2) + [gen_history(rng, k, 8)] + inverse_histories(k, rng)[:3] + \
                 snapshot_histories(k, rng)[:2]
             return [dict(copy.deepcopy(fam), hists=hs),
-                    dict(copy.deepcopy(fam), prerewrite=list(range(k)), hists=[perms[0], perms[-1]] + inverse_histories(k, rng)[:1])]
+                    exoticize(dict(copy.deepcopy(fam), prerewrite=list(range(k)),
+                                   hists=[perms[0], perms[-1]] + inverse_histories(k, rng)[:1]), rng, nodes=False, p=1.0)]
         out = []
         for i in range(0, len(perms), 6):
-            out.append(dict(copy.deepcopy(fam), hists=perms[i:i + 6] + [gen_history(rng, k, 12)] + inverse_histories(k, rng) +
-                            snapshot_histories(k, rng), **({'prerewrite': list(range(k))} if i == 6 else {})))
+            out.append(exoticize(dict(copy.deepcopy(fam), hists=perms[i:i + 6] + [gen_history(rng, k, 12)] + inverse_histories(k, rng) +
+                                      snapshot_histories(k, rng), **({'prerewrite': list(range(k))} if i == 6 else {})),
+                                 rng, nodes=False, p=0.5))
         return out
 
     def corpus(self):
@@ -1312,7 +1374,7 @@ class Partitions(Histories):
             if k >= 2:
                 hs += inverse_histories(k, rng)[:3] + snapshot_histories(k, rng)[:1]
             fam['hists'] = hs
-            out.append(fam)
+            out.append(exoticize(fam, rng, nodes=False))
         return out
 
     def corpus(self):
